@@ -229,6 +229,25 @@ def big_rows(ctx: Ctx):
             if r:
                 us += [r, neg(r)]
         us += [tuple(rng.randrange(p) for _ in range(d)) for _ in range(4 if quick else 40)]
+        # exceptional points of the isogeny: u whose SWU image is a pole of the rational map (a kernel point: the
+        # image is the identity) or a zero of its x-numerator (the image has x = 0).  Found by root finding on the
+        # library's own coefficient tables - input generation only.
+        try:
+            from . import polyroots as pr
+            Fl = pr.Fld(p, d)
+            coef = oc.ISO_11_MAP_COEFFICIENTS if d == 1 else oc.ISO_3_MAP_COEFFICIENTS
+            cfs = lambda x: tuple(int(c) for c in x.coeffs) if hasattr(x, "coeffs") else (int(getattr(x, "n", x)) % p,)   # noqa: E731
+            exc_us = []
+            for which in (1, 0):
+                got = []
+                for x0 in pr.roots(Fl, [cfs(c) for c in coef[which]], rng):
+                    got += pr.swu_preimages(Fl, K.A, K.B, K.Z, x0)
+                rng.shuffle(got)
+                exc_us += got[:(2 if quick else 12)]
+            us += exc_us
+            ctx.add_cov(f"isogeny_exceptional_u_G{d}", len(exc_us))
+        except Exception as e:  # noqa: BLE001 -- the tables no longer have this shape: the exceptional inputs are skipped
+            ctx.note(f"isogeny_exceptional_u_G{d}_skipped", f"{type(e).__name__}: {e}"[:120])
         for u in us:
             row = {"op": "swu", "g": d, "u": L(u)}
             try:
@@ -259,7 +278,10 @@ def big_rows(ctx: Ctx):
                 # isogeny image and the composed map
                 for name, pt in (("iso_map", iso_fn(X, Y, D)), ("map_to_curve", map_fn(el))):
                     c = [tuple(int(t) for t in (v.coeffs if d == 2 else (v.n,))) for v in pt]
-                    rows.append({"op": "iso", "g": d, "X": L(c[0]), "Y": L(c[1]), "Z": L(c[2]), "fn": name, "u": L(u)})
+                    iso_row = {"op": "iso", "g": d, "X": L(c[0]), "Y": L(c[1]), "Z": L(c[2]), "fn": name, "u": L(u)}
+                    if c[2] == K.zero:          # the identity: the spec needs the SWU image to decide whether that is right
+                        iso_row["swu"] = {k: v for k, v in row.items() if k != "op"}
+                    rows.append(iso_row)
             except Exception as e:  # noqa: BLE001
                 row["X"] = f"EXC:{type(e).__name__}:{e}"[:100]
                 rows.append(row)
